@@ -40,7 +40,8 @@ def strategy(tier, phase):
     return st.fixed_dictionaries({"gen": st.sampled_from([2, 3, 4, 4]), "tape": rmodel.tape_strategy(), "edits": st.lists(edit, max_size=4), "pass": st.integers(0, len(c05.PASSES) - 1),
                                   "param": st.integers(0, 7), "fault": st.sampled_from([0, 0, 0, 1, 2, 3]), "functional": st.booleans(), "wrap": st.sampled_from([0, 0, 1, 2, 3]),
                                   # history of the pass OBJECT: it may have processed another model before (state left over from a previous call)
-                                  "prelude": st.one_of(st.just([]), st.just([]), rmodel.tape_strategy(100))})
+                                  "prelude": st.one_of(st.just([]), st.just([]), rmodel.tape_strategy(100)),
+                                  "prelude_edit": st.one_of(st.just([]), st.just([]), st.lists(st.tuples(st.integers(0, 80), st.integers(0, 2**16)).map(list), min_size=1, max_size=3))})
 
 
 class Boom(Exception):
@@ -220,9 +221,16 @@ def execute(case):
         return dict(failures=_dd(fails), nontrivial=nontrivial, classes=classes)
     # ---- all other passes ---------------------------------------------------------------------------------
     p = c05.make_pass(pidx, param)
-    if case.get("prelude"):
+    prelude_tape = case.get("prelude") or []
+    if not prelude_tape and case.get("prelude_edit"):
+        # the "same" model before an edit: the tape of the model under test with a few positions changed
+        prelude_tape = list(case["tape"])
+        for pos, val in case["prelude_edit"]:
+            if prelude_tape:
+                prelude_tape[pos % len(prelude_tape)] = val
+    if prelude_tape:
         try:
-            other, _ = rmodel.build(case["prelude"], case.get("gen", 1))
+            other, _ = rmodel.build(prelude_tape, case.get("gen", 1))
             p(ir.from_proto(other))
             classes.append("pass_object_used_before")
         except Exception:
